@@ -37,6 +37,8 @@ pub enum Cause {
     Unexpected,
     /// a further PUBLISH whose handler fails
     HandlerErr,
+    /// a further PUBLISH whose handler is suspended first and fails when released (older handlers may still be running)
+    HandlerErrLate,
     /// server: SUBSCRIBE whose protocol handler fails
     CtlErr,
     /// control service fails on a back-pressure notification
@@ -89,7 +91,7 @@ pub fn scenario(k: u8, role: Role) -> (&'static str, u16, Vec<Op>) {
 }
 
 pub fn causes(role: Role) -> Vec<Cause> {
-    let mut v = vec![Cause::PeerClose, Cause::ReadError, Cause::WriteError, Cause::Garbage, Cause::Oversize, Cause::WrongAck, Cause::Unexpected, Cause::HandlerErr, Cause::BackpressureErr, Cause::AppClose(0), Cause::AppClose(1), Cause::PeerDisconnect];
+    let mut v = vec![Cause::PeerClose, Cause::ReadError, Cause::WriteError, Cause::Garbage, Cause::Oversize, Cause::WrongAck, Cause::Unexpected, Cause::HandlerErr, Cause::HandlerErrLate, Cause::BackpressureErr, Cause::AppClose(0), Cause::AppClose(1), Cause::PeerDisconnect];
     if role.is_v5() {
         v.extend([Cause::UnknownAlias, Cause::AppClose(2), Cause::AppClose(3)]);
     }
@@ -121,7 +123,7 @@ fn expected(cause: Cause, role: Role) -> Class {
     match cause {
         Cause::PeerClose | Cause::ReadError | Cause::WriteError | Cause::AppClose(_) => Class::Gone,
         Cause::Garbage | Cause::Oversize | Cause::WrongAck | Cause::PubRelUnknown | Cause::UnknownAlias | Cause::DupId | Cause::Unexpected => Class::Protocol,
-        Cause::HandlerErr | Cause::CtlErr | Cause::BackpressureErr => Class::Error,
+        Cause::HandlerErr | Cause::HandlerErrLate | Cause::CtlErr | Cause::BackpressureErr => Class::Error,
         Cause::PeerDisconnect => {
             if role == Role::V3Client {
                 Class::Protocol
@@ -175,6 +177,28 @@ async fn inject(c: &Case, w: &mut World) -> bool {
             app.pub_plans.borrow_mut().insert(seq, PubPlan { outcome: Outcome::Err, read: ReadPlan::Eager });
             app.open(G_PUB, seq);
             bytes = Some(w.eut.encode(&P5::Publish(Box::new(s5::Publish5 { topic: "in/e".into(), qos: 1, pid: Some(222), payload_len: 1, ..Default::default() })), &[1]));
+        }
+        Cause::HandlerErrLate => {
+            let seq = app.pub_seq.get();
+            app.pub_plans.borrow_mut().insert(seq, PubPlan { outcome: Outcome::Err, read: ReadPlan::Eager });
+            app.hold(G_PUB, seq);
+            let b = w.eut.encode(&P5::Publish(Box::new(s5::Publish5 { topic: "in/l".into(), qos: 1, pid: Some(224), payload_len: 1, ..Default::default() })), &[1]);
+            w.eut.peer().send(&b);
+            w.eut.settle().await;
+            // (behind a stalled peer the dispatcher looks at handler results only after the write buffer drained)
+            if w.stalled {
+                must_end = false;
+            }
+            // released now: it fails after having been suspended
+            if app.events().iter().any(|e| matches!(e, Ev::PubEnter { seq: s, .. } if *s == seq)) {
+                app.open(G_PUB, seq);
+            } else {
+                // not started (reading paused or payload owed): it will fail once everything is released
+                app.open(G_PUB, seq);
+                if payload_owed {
+                    must_end = false;
+                }
+            }
         }
         Cause::CtlErr => {
             let seq = app.ctl_seq.get();
@@ -280,6 +304,17 @@ pub async fn run_case(c: Case) -> Result<CaseInfo, Failure> {
     let must_end = inject(&c, &mut w).await;
     w.eut.settle().await;
     w.poll_all();
+    if c.cause == Cause::HandlerErrLate && must_end {
+        // the handler has failed: the connection must end now, not when something else happens to wake the dispatcher
+        let ev = app.events();
+        if ev.iter().any(|e| matches!(e, Ev::PubExit { outcome: Outcome::Err, .. })) && !ev.iter().any(|e| matches!(e, Ev::Stop(_))) {
+            return Err(Failure::new(
+                "handler-error-not-acted-upon",
+                format!("C07/{}/handler-error-not-acted-upon", c.role.name()),
+                format!("a publish handler failed after having been suspended, older handlers are still running, and no Stop notification was delivered; events {:?}", brief_events(&ev)),
+            ));
+        }
+    }
     if c.hold_stop {
         // while the Stop notification is being handled no handler may have been cancelled
         let ev = app.events();
@@ -479,7 +514,7 @@ pub fn run(ctx: &Ctx, started: Instant) -> i32 {
         level: "fault_enumeration",
         rule: format!(
             "grid of {total} cases: base scenarios {names:?} x every step index (cause injected after 0..n steps) x causes {{peer close, read error, write error, malformed Remaining Length, frame above the inbound maximum, unsolicited PUBACK, packet type the role never receives, \
-             failing publish handler, control service failing on a back-pressure notification, application close / force_close (v5 also close_with_reason / close_with_no_reason), peer DISCONNECT; v5: unknown topic alias; v3 server: PUBREL with unknown id, duplicate QoS 1 id; \
+             failing publish handler (at once, or after having been suspended while older handlers still run), control service failing on a back-pressure notification, application close / force_close (v5 also close_with_reason / close_with_no_reason), peer DISCONNECT; v5: unknown topic alias; v3 server: PUBREL with unknown id, duplicate QoS 1 id; \
              servers: failing protocol handler}} x Stop notification handled at once / held open x four roles; for peer close and read error additionally every byte offset 1..39 inside the inbound packet being delivered (quick: scenarios 0-2 and 7; thorough: all). \
              Oracle: exactly one Stop of the class the cause demands (protocol / application error / peer gone; a cause that cannot take effect because its bytes land in an owed payload or nothing is written falls back to a peer close), no control call after it, every owned \
              send/ready/release/chunk future resolved, no clean end of an incomplete payload, every handler finished or dropped and none dropped before the held Stop was handled, connection task finished, no panic. \
